@@ -232,6 +232,19 @@ def impl_oracle(c):
                                        "two fragments, the first of %s bytes" % first.get("shape", "")[5:]),
                                    "at most %d bytes" % c["chunk"] if c.get("chunk") else "whatever has arrived",
                                    x["res"])))
+    if (c.get("hang") or "").startswith("hint"):
+        # the hang of a shutdown hint: name the call the hint took out of the pending table, if any
+        for f in frames:
+            if f["kind"] != "hint":
+                continue
+            for x in c["callers"]:
+                if x.get("sent") and x.get("id") == f["id"] and x["res"] == "none" \
+                        and call_ev.get(x["k"], 1 << 30) < f["at"]:
+                    out.append(("hint-removed-pending-call",
+                                "a shutdown hint carrying id %s arrived while call %d (id %s) was outstanding; "
+                                "afterwards no shutdown request was sent (%s) and call %d never completed: the hint "
+                                "was looked up in the pending table like a reply and removed the call"
+                                % (f["id"], x["k"], x.get("id"), c["hang"], x["k"])))
     return out
 
 
